@@ -9,6 +9,7 @@ import (
 	"reflect"
 
 	"github.com/vapourismo/knx-go/knx/cemi"
+	"verifh/enum/enumlib"
 )
 
 // Receiver reuse: "decoding extracts exactly those fields from any such layout" must not depend
@@ -88,4 +89,90 @@ func replayReuse(raw []byte) (string, bool) {
 	}
 	desc := fmt.Sprintf("A=%s then B=%s into one LData: err=%v info=% x unit=%+v; B into a fresh LData: info=% x unit=%+v", in.First, in.Second, err, []byte(reused.Info), reused.Data, []byte(fresh.Info), fresh.Data)
 	return desc, err != nil || !reflect.DeepEqual(fresh, reused)
+}
+
+// Trailing octets: a receive buffer may hold more than the frame (a KNXnet/IP service passes the
+// rest of its body). "Decoding extracts exactly those fields from any such layout": the length
+// octet, not the buffer, delimits the application data, so a layout followed by 1, 2, 3 or 17
+// spare octets must decode into the same fields as the layout alone.
+func (c *ctx) trailingSpace() {
+	var total, nontrivial int64
+	for _, info := range []int{0, 1, 4} {
+		for _, unit := range []int{-1, 1, 2, 5, 15, 16, 20, 254} {
+			for _, numbered := range []bool{false, true} {
+				for _, extra := range []int{1, 2, 3, 17} {
+					for _, fill := range []byte{0x00, 0xFF, 0xA5} {
+						f := &fields{Code: codeInd, Info: infoOf(info), Std: unit <= 15, Prio: 3, Group: true, Hops: 6, Src: 0x1101 + info, Dst: 0x0A03 + unit + 2, Numbered: numbered}
+						if numbered {
+							f.Seq = 9
+						}
+						if unit < 0 {
+							f.Control, f.APCI = true, 2
+						} else {
+							f.APCI = 2
+							f.Data = dataOf(unit, 0x2A)
+						}
+						exact, _ := refLData(f)
+						long := append(append([]byte(nil), exact...), pattern(extra, 0, fill)...)
+						total++
+						var a, b cemi.Message
+						if _, err := cemi.Unpack(exact, &a); err != nil {
+							continue
+						}
+						in := map[string]string{"first": hex.EncodeToString(exact), "second": hex.EncodeToString(long)}
+						test := fmt.Sprintf("func TestC11TrailingOctets(t *testing.T) {\n\texact, _ := hex.DecodeString(%q)\n\tlong, _ := hex.DecodeString(%q)\n\tvar a, b cemi.Message\n\tcemi.Unpack(exact, &a)\n\tif _, err := cemi.Unpack(long, &b); err != nil || !reflect.DeepEqual(a, b) {\n\t\tt.Fatalf(\"with spare octets: %%+v (%%v), without: %%+v\", b, err, a)\n\t}\n}", in["first"], in["second"])
+						var err error
+						if p, pv := enumlib.Try(func() { _, err = cemi.Unpack(long, &b) }); p {
+							c.r.ViolationWithTest("C11:panic:Unpack", fmt.Sprintf("cemi.Unpack of layout %s followed by %d spare octets panicked: %s", in["first"], extra, pv), in, test)
+							continue
+						}
+						if err != nil {
+							c.r.ViolationWithTest("C11:unpack-trailing-octets", fmt.Sprintf("layout %s decodes, the same layout followed by %d spare octets is rejected: %v", in["first"], extra, err), in, test)
+							continue
+						}
+						nontrivial++
+						if !reflect.DeepEqual(normInfo(a), normInfo(b)) {
+							c.r.ViolationWithTest("C11:unpack-trailing-octets", fmt.Sprintf("layout %s followed by %d spare octets (0x%02X) decodes to %s; the layout alone decodes to %s - the length octet delimits the application data", in["first"], extra, fill, showMsg(b), showMsg(a)), in, test)
+						}
+					}
+				}
+			}
+		}
+	}
+	c.r.Eval(total)
+	c.r.Nontrivial(nontrivial)
+	c.r.Space("trailing-octets", total, nontrivial, true, "L_Data layouts (info length 0/1/4 x control unit, data unit of 1/2/5/15/16/20/254 octets x numbered) followed by 1, 2, 3 or 17 spare octets of 0x00/0xFF/0xA5: decoded fields must equal those of the layout alone")
+}
+
+func normInfo(m cemi.Message) cemi.Message {
+	switch x := m.(type) {
+	case *cemi.LDataInd:
+		if len(x.Info) == 0 {
+			y := *x
+			y.Info = nil
+			return &y
+		}
+	}
+	return m
+}
+
+func showMsg(m cemi.Message) string {
+	if x, ok := m.(*cemi.LDataInd); ok {
+		return fmt.Sprintf("info=% x control1=%#02x control2=%#02x src=%#x dst=%#x unit=%+v", []byte(x.Info), uint8(x.Control1), uint8(x.Control2), uint16(x.Source), x.Destination, x.Data)
+	}
+	return fmt.Sprintf("%+v", m)
+}
+
+func replayTrailing(raw []byte) (string, bool) {
+	var in struct{ First, Second string }
+	if err := json.Unmarshal(raw, &in); err != nil {
+		return "cannot decode input: " + err.Error(), false
+	}
+	exact, _ := hex.DecodeString(in.First)
+	long, _ := hex.DecodeString(in.Second)
+	var a, b cemi.Message
+	cemi.Unpack(exact, &a)
+	_, err := cemi.Unpack(long, &b)
+	desc := fmt.Sprintf("layout alone: %s; with spare octets: err=%v %s", showMsg(a), err, showMsg(b))
+	return desc, err != nil || !reflect.DeepEqual(normInfo(a), normInfo(b))
 }
